@@ -1,8 +1,175 @@
-(* C14 -- proofs about Model/C14.v *)
-From PV Require Import Lib.Base Lib.Round Model.C12 Model.C14.
-From Coq Require Import QArith Qminmax Qabs Lqa.
+(* C14 -- setter, note array, from_note_array, track renumbering; examples *)
+From PV Require Import Lib.Base Lib.Round Model.C12 Model.C14 Model.C14_Spec
+  Proofs.C14_lib Proofs.C14_pedal Proofs.C14_so Proofs.C14_spec.
+From Coq Require Import QArith Qminmax Qabs Lqa Sorted Permutation.
 #[local] Open Scope Q_scope.
 
-Lemma no_pedal_identity_lemma thr ns cs :
-  pedal_events cs = [] -> sound_offs thr ns cs = map n_off ns.
-Proof. intros H. unfold sound_offs, sorted_pedal. rewrite H. reflexivity. Qed.
+(* ---- the setter recomputes: the sound_off column depends only on notes, controls and the
+        last assigned threshold, whatever was assigned before *)
+Lemma set_threshold_keeps p t :
+  p_notes (set_threshold p t) = p_notes p /\ p_ctrls (set_threshold p t) = p_ctrls p /\ p_thr (set_threshold p t) = t.
+Proof. unfold set_threshold. destruct (p_notes p) eqn:E; simpl; auto. Qed.
+
+Lemma sound_offs_nil thr cs : sound_offs thr [] cs = [].
+Proof. unfold sound_offs. destruct (sorted_pedal cs); reflexivity. Qed.
+
+Lemma set_threshold_so p t :
+  p_so (set_threshold p t) = match p_notes p with [] => p_so p | _ => sound_offs t (p_notes p) (p_ctrls p) end.
+Proof. unfold set_threshold. destruct (p_notes p); reflexivity. Qed.
+
+Lemma new_part_so thr ns cs : p_so (new_part thr ns cs) = sound_offs thr ns cs.
+Proof.
+  unfold new_part. rewrite set_threshold_so. simpl. destruct ns; [|reflexivity].
+  rewrite sound_offs_nil. reflexivity.
+Qed.
+
+Lemma fold_set_threshold_keeps ts : forall p,
+  p_notes (fold_left set_threshold ts p) = p_notes p /\ p_ctrls (fold_left set_threshold ts p) = p_ctrls p /\
+  (p_notes p = [] -> p_so (fold_left set_threshold ts p) = p_so p).
+Proof.
+  induction ts as [|t r IH]; intros p; simpl; auto.
+  destruct (IH (set_threshold p t)) as (A & B & C).
+  destruct (set_threshold_keeps p t) as (A' & B' & _).
+  rewrite A, B, A', B'. repeat split; auto.
+  intros E. rewrite C by congruence. rewrite set_threshold_so, E. reflexivity.
+Qed.
+
+Lemma setter_recomputes_lemma thr0 ns cs ts t :
+  let p := fold_left set_threshold (ts ++ [t]) (new_part thr0 ns cs) in
+  p_so p = sound_offs t ns cs /\ p_thr p = t /\ p_notes p = ns /\ p_ctrls p = cs.
+Proof.
+  simpl. rewrite fold_left_app. simpl.
+  set (q := fold_left set_threshold ts (new_part thr0 ns cs)).
+  destruct (fold_set_threshold_keeps ts (new_part thr0 ns cs)) as (A & B & C). fold q in A, B, C.
+  assert (An : p_notes (new_part thr0 ns cs) = ns).
+  { unfold new_part. destruct (set_threshold_keeps (mkPart ns cs thr0 (map n_off ns)) thr0) as (X & _). exact X. }
+  assert (Ac : p_ctrls (new_part thr0 ns cs) = cs).
+  { unfold new_part. destruct (set_threshold_keeps (mkPart ns cs thr0 (map n_off ns)) thr0) as (_ & X & _). exact X. }
+  destruct (set_threshold_keeps q t) as (A' & B' & C').
+  rewrite A', B', C', A, B, An, Ac. repeat split; auto.
+  rewrite set_threshold_so, A, B, An, Ac.
+  destruct ns as [|n r]; [|reflexivity].
+  rewrite C by exact An. rewrite new_part_so. rewrite !sound_offs_nil. reflexivity.
+Qed.
+
+(* ---- note array: seconds and ticks agree under ppq / mpq *)
+Lemma onset_tick_agrees_lemma ppq mpq x :
+  Qabs (inject_Z (1000000 * ppq) * r_on (na_row ppq mpq x) / inject_Z mpq
+        - inject_Z (r_on_tick (na_row ppq mpq x))) <= 1 # 2.
+Proof. unfold na_row, sec_to_tick. cbn [r_on r_on_tick]. apply round_half_even_near. Qed.
+
+Lemma duration_tick_agrees_lemma ppq mpq x :
+  snd x == n_off (fst x) ->
+  Qabs (inject_Z (1000000 * ppq) * r_dur (na_row ppq mpq x) / inject_Z mpq
+        - inject_Z (r_dur_tick (na_row ppq mpq x))) <= 1.
+Proof.
+  intros E. unfold na_row, sec_to_tick. cbn [r_dur r_dur_tick].
+  set (K := inject_Z (1000000 * ppq)). set (M := inject_Z mpq).
+  pose proof (round_half_even_near (K * n_on (fst x) / M)) as Ha.
+  pose proof (round_half_even_near (K * n_off (fst x) / M)) as Hb.
+  apply Qabs_Qle_condition in Ha. apply Qabs_Qle_condition in Hb. apply Qabs_Qle_condition.
+  unfold half in *. unfold Z.sub. rewrite inject_Z_plus, inject_Z_opp. rewrite E.
+  unfold Qdiv in *.
+  set (ta := inject_Z (round_half_even (K * n_on (fst x) * / M))) in *.
+  set (tb := inject_Z (round_half_even (K * n_off (fst x) * / M))) in *.
+  set (a := K * n_on (fst x) * / M) in *. set (b := K * n_off (fst x) * / M) in *.
+  assert (R : K * (n_off (fst x) - n_on (fst x)) * / M == b - a) by (unfold a, b; ring).
+  rewrite R. split; lra.
+Qed.
+
+(* ---- from_note_array (note_array p) keeps pitch, velocity, onset and sounding end *)
+Lemma new_part_no_ctrl thr ns : p_so (new_part thr ns []) = map n_off ns /\ p_notes (new_part thr ns []) = ns.
+Proof.
+  split.
+  - rewrite new_part_so. apply no_pedal_identity_lemma. reflexivity.
+  - unfold new_part. destruct (set_threshold_keeps (mkPart ns [] thr (map n_off ns)) thr) as (X & _). exact X.
+Qed.
+
+Lemma from_note_array_roundtrip_lemma ppq mpq p :
+  List.length (p_notes p) = List.length (p_so p) ->
+  let q := from_note_array (note_array ppq mpq p) in
+  Forall2 (fun n m => n_pitch m = n_pitch n /\ n_vel m = n_vel n /\ n_on m = n_on n) (p_notes p) (p_notes q) /\
+  Forall2 (fun so so' => so' == so) (p_so p) (p_so q).
+Proof.
+  intros HL. simpl. unfold from_note_array, note_array.
+  destruct (new_part_no_ctrl 64 (map note_of_row (map (na_row ppq mpq) (combine (p_notes p) (p_so p))))) as [E1 E2].
+  rewrite E1, E2. clear E1 E2.
+  revert HL. generalize (p_so p) as so. generalize (p_notes p) as ns.
+  induction ns as [|n r IH]; intros [|s so] HL; simpl in HL; try discriminate; simpl.
+  - split; constructor.
+  - destruct (IH so) as [A B]; [lia|]. split; constructor; auto.
+    unfold na_row, note_of_row. simpl. ring.
+Qed.
+
+(* ---- track renumbering *)
+Lemma pair_eqb_eq a b : pair_eqb a b = true <-> a = b.
+Proof.
+  unfold pair_eqb. destruct a, b; simpl. rewrite andb_true_iff, !Z.eqb_eq. split.
+  - intros [-> ->]. reflexivity.
+  - intros H. inversion H. auto.
+Qed.
+
+Lemma index_of_pair_nth a l k : index_of_pair a l = Some k ->
+  (0 <= k < Z.of_nat (List.length l))%Z /\ nth_error l (Z.to_nat k) = Some a.
+Proof.
+  revert k. induction l as [|b r IH]; intros k H; simpl in H; [discriminate|].
+  destruct (pair_eqb a b) eqn:E.
+  - inversion H; subst. apply pair_eqb_eq in E. subst. simpl. split; [lia|reflexivity].
+  - destruct (index_of_pair a r) as [k'|] eqn:E'; [|discriminate]. inversion H; subst.
+    destruct (IH k' eq_refl) as [A B]. split.
+    + simpl List.length. lia.
+    + replace (Z.to_nat (k' + 1)) with (S (Z.to_nat k')) by lia. exact B.
+Qed.
+
+Lemma index_of_pair_In a l : In a l -> exists k, index_of_pair a l = Some k.
+Proof.
+  induction l as [|b r IH]; intros H; [destruct H|]. simpl.
+  destruct (pair_eqb a b) eqn:E; [eauto|].
+  destruct H as [->|H].
+  - assert (pair_eqb a a = true) by (apply pair_eqb_eq; reflexivity). congruence.
+  - destruct (IH H) as [k ->]. eauto.
+Qed.
+
+Lemma mem_pair_In a l : mem_pair a l = true <-> In a l.
+Proof.
+  induction l as [|b r IH]; simpl; [split; [discriminate|tauto]|].
+  rewrite orb_true_iff, IH, pair_eqb_eq. split; intros [H|H]; auto.
+Qed.
+
+Lemma dedup_In a l : forall seen, In a l -> In a (dedup l seen) \/ In a seen.
+Proof.
+  induction l as [|b r IH]; intros seen H; [destruct H|]. simpl.
+  destruct (mem_pair b seen) eqn:E.
+  - destruct H as [->|H]; [right; apply mem_pair_In; exact E|]. apply IH; exact H.
+  - destruct H as [->|H]; [left; left; reflexivity|].
+    destruct (IH (b :: seen) H) as [H'|[->|H']]; auto; left; [right|left]; auto.
+Qed.
+
+Lemma track_renumber_lemma pairs :
+  (forall a, In a pairs -> exists k, track_map pairs a = Some k /\ (0 <= k < Z.of_nat (List.length (track_ids pairs)))%Z) /\
+  (forall a b k, track_map pairs a = Some k -> track_map pairs b = Some k -> a = b).
+Proof.
+  unfold track_map. split.
+  - intros a H. destruct (dedup_In a pairs [] H) as [H'|[]].
+    destruct (index_of_pair_In a _ H') as [k Hk]. exists k. split; auto.
+    apply index_of_pair_nth in Hk. tauto.
+  - intros a b k Ha Hb. apply index_of_pair_nth in Ha as [_ Ha]. apply index_of_pair_nth in Hb as [_ Hb]. congruence.
+Qed.
+
+(* ---- the hypotheses of sound_off_is_spec are satisfiable by a state in which the pedal
+        extends one note up to a re-strike and another up to the pedal release *)
+Definition ex_notes : list note := [mkNote 60 64 0 1; mkNote 60 70 3 4; mkNote 62 50 (1#2) 6].
+Definition ex_ctrls : list ctrl := [mkCtrl 64 5 0; mkCtrl 7 2 100; mkCtrl 64 (1#2) 100].
+
+Lemma example_lemma :
+  sound_offs 64 ex_notes ex_ctrls = [3; 5; 6] /\ sound_offs 100 ex_notes ex_ctrls = [1; 4; 6] /\
+  distinct_pedal_times ex_ctrls /\ no_zero_length_tie ex_notes /\ released_after_onset ex_notes.
+Proof.
+  split; [vm_compute; reflexivity|]. split; [vm_compute; reflexivity|]. split; [|split].
+  - unfold distinct_pedal_times. simpl. constructor; [|constructor; constructor].
+    constructor; [|constructor]. simpl. intros C. discriminate C.
+  - intros i n j m Hij Hi Hj Hp Hz. exfalso.
+    destruct i as [|[|[|i]]]; simpl in Hi; inversion Hi; subst; simpl in Hz; try discriminate Hz.
+    destruct i; discriminate.
+  - intros n [<-|[<-|[<-|[]]]]; simpl; discriminate.
+Qed.
